@@ -1,5 +1,6 @@
 """Shared pieces of the three solve-loop checks (C04, C07, C20): one harness binary (`skel`),
 one cached run, cases filtered by property tag."""
+import os
 from . import standard
 
 HEADER = """From Coq Require Import List ZArith NArith Floats. Import ListNotations.
@@ -22,6 +23,8 @@ def spec(pid, props_file, rule, explanation, nontrivial, extra=None):
         "header": HEADER,
         "harness_bin": "skel",
         "shared_run": "skel",
+        # minimised / regression problems, solved first on every run
+        "harness_args": ["--corpus", os.path.join(os.path.dirname(os.path.dirname(os.path.abspath(__file__))), "corpus", "C04")],
         "tag": pid,
         "nontrivial": nontrivial,
         "rule": rule,
